@@ -65,11 +65,32 @@ def run_case(ctx, kind_, idx):
     x, y, meta = R.gen_series(rng, 2, 60, ties_share=0.25)
     n = R.gen_n(rng)
     kw, _a = R.gen_params(rng, strat if strat != "FunctionRFA" else "CubicSplineRFA", n)
+    klass = None
     if strat == "FunctionRFA":
+        # the three documented ways of handing over a sampling function: a supplier, a supplier with its own keyword
+        # arguments, and a subclass overriding _get_sampling_function() (then no supplier is given at all)
         sk = SUPPLIERS[int(rng.integers(0, len(SUPPLIERS)))]
-        kw = {"sampling_function_supplier": supplier(sk)}
+        route = ["supplier", "supplier_kwargs", "subclass"][int(rng.integers(0, 3))]
+        make = supplier(sk)
+        if route == "supplier":
+            kw = {"sampling_function_supplier": make}
+        elif route == "supplier_kwargs":
+            lift = float(rng.choice([0.0, 1.5]))
+
+            def with_kwargs(xa, ya, lift, tag=None):
+                f = make(xa, ya)
+                return (lambda t: f(t) + lift) if lift else f
+            kw = {"sampling_function_supplier": with_kwargs,
+                  "sampling_function_supplier_kwargs": {"lift": lift, "tag": "user"} if rng.integers(0, 2) else {"lift": lift}}
+        else:
+            class UserRFA(rfa.FunctionRFA):
+                def _get_sampling_function(self):
+                    return make(self.x, self.y)
+            klass, kw = UserRFA, {}
         meta["supplier"] = sk
-    n_arg = np.int64(n) if rng.integers(0, 4) == 0 else n
+        meta["supplied_by"] = route
+        ctx.count("sampling_function_via:" + route)
+    n_arg, _nt = gen.count_arg(rng, n)
     xin, xk = gen.as_container(rng, x)
     yin, yk = gen.as_container(rng, y)
     meta.update({"xcont": xk, "ycont": yk, "n_type": type(n_arg).__name__})
@@ -82,9 +103,9 @@ def run_case(ctx, kind_, idx):
         ctx.count("reject:n=%s" % bad_n)
         try:
             if via_weaver:
-                Weaver(xin, yin).recreate_from_average(bad_n, rfa_class=R.cls(strat), **kw)
+                Weaver(xin, yin).recreate_from_average(bad_n, rfa_class=klass or R.cls(strat), **kw)
             else:
-                R.cls(strat)(xin, yin, bad_n, **kw).rfa()
+                (klass or R.cls(strat))(xin, yin, bad_n, **kw).rfa()
         except ValueError:
             ctx.nontriv("reject", strat, bad_n, idx)
             return
@@ -97,10 +118,10 @@ def run_case(ctx, kind_, idx):
     try:
         with fp_watch(ctx):
             if via_weaver:
-                wv = Weaver(xin, yin).recreate_from_average(n_arg, rfa_class=R.cls(strat), **kw)
+                wv = Weaver(xin, yin).recreate_from_average(n_arg, rfa_class=klass or R.cls(strat), **kw)
                 xs, ys = wv.get()
             elif rng.integers(0, 4) == 0:
-                obj = R.cls(strat)(xin, yin, n_arg, **kw)
+                obj = R.build(rng, strat, xin, yin, n_arg, kw, klass)
                 xs0, ys0 = obj.rfa()
                 if isinstance(xs0, np.ndarray) and isinstance(ys0, np.ndarray):
                     xs0 += 0.5                     # caller modifies what it was given ...
@@ -108,7 +129,7 @@ def run_case(ctx, kind_, idx):
                 xs, ys = obj.rfa()                 # ... a second request must still return the exact grid
                 meta["second_call_on_same_object"] = True
             else:
-                xs, ys = R.cls(strat)(xin, yin, n_arg, **kw).rfa()
+                xs, ys = R.build(rng, strat, xin, yin, n_arg, kw, klass).rfa()
     except Exception as e:
         ctx.judged()
         ctx.exception("raised_on_admissible_input", cid, e, {"case": R.brief(strat, x, y, n, kw, meta)})
